@@ -1,4 +1,5 @@
 // Harness, mode `parsefuzz` (property C01), built with clang++ -fsanitize=address,undefined: parse one input per line (hex), no engine involved.
+//   ws <hex bytes> <start> <0|1>  ->  ok <retval> <index> <line> <col> | illegal <index> <line> <col>      (SkipWS alone, C01 / M-WS)
 //   <hex bytes>  ->  ok end=<line>:<col> depth=<counter after> stack=<match stack size after> | eval_error <reason class> | LEAK:<exception type that is not eval_error>
 // A crash (sanitizer report, SIGSEGV from stack exhaustion, std::terminate) kills the process: the driver records which input did it.
 #include <chaiscript/chaiscript.hpp>
@@ -15,6 +16,19 @@ namespace chaiscript_verif {
       o += " depth=" + std::to_string(p.m_current_parse_depth) + " stack=" + std::to_string(p.m_match_stack.size());
       o += std::string(" kind=") + ast_node_type_to_string(ast->identifier);
       return o;
+    }
+    // `ws <hex bytes> <start index> <skip_cr>`: SkipWS alone, on a buffer WITHOUT a terminator behind it (a read past the end is an ASan report)
+    static std::string ws(Parser &p, const std::vector<char> &buf, size_t idx, bool cr) {
+      p.m_filename = std::make_shared<std::string>("ws");
+      p.m_position = typename Parser::Position(buf.data(), buf.data() + buf.size());
+      for (size_t k = 0; k < idx; ++k) ++p.m_position;
+      auto where = [&]() { return std::to_string(buf.size() - p.m_position.remaining()) + " " + std::to_string(p.m_position.line) + " " + std::to_string(p.m_position.col); };
+      try {
+        const bool r = p.SkipWS(cr);
+        return std::string("ok ") + (r ? "1 " : "0 ") + where();
+      } catch (const chaiscript::exception::eval_error &) {
+        return "illegal " + where();
+      }
     }
     static std::string after_error(Parser &p) {
       return " depth=" + std::to_string(p.m_current_parse_depth);
@@ -34,6 +48,14 @@ int main() {
   std::string line;
   while (std::getline(std::cin, line)) {
     auto w = vh::words(line);
+    if (w.size() == 4 && w[0] == "ws") {
+      const std::string b = vh::hex_decode(w[1]);
+      std::vector<char> buf(b.begin(), b.end());
+      buf.shrink_to_fit();
+      Parser p;
+      std::cout << chaiscript_verif::Access::ws(p, buf, size_t(std::stoul(w[2])), w[3] == "1") << "\n" << std::flush;
+      continue;
+    }
     if (w.size() != 1) { std::cout << "bad-op\n" << std::flush; continue; }
     const std::string input = vh::hex_decode(w[0]);
     std::string out;
